@@ -58,6 +58,10 @@ class World:
     def new_device(self, devtype, qualifier=0):
         from vmon.sim.target import Target
 
+        if len(self.mod.log) > 5000:
+            self.mod.log = []
+        if len(self.by_dev) > 2000:
+            self.by_dev.clear()
         t = Target(devtype, qualifier)
         self.n += 1
         if self.transport == "sgio":
